@@ -31,10 +31,13 @@ type c16GuardSpec struct {
 	v       string // the signer-derived variable (identifier, or selector text such as msg.Authority)
 	scheme  string // "if" | "lookup"
 	nth     int    // skip this many earlier matches (0 = first)
+	callee  string // lookup scheme: the called function's name must contain this ("" = any)
 }
 
 type c16Guard struct {
 	Handler, File, Fn, Signer, Kind, Lhs, Op, Rhs, OnTrue, OnFalse, Context, Fallthrough string
+	Exits bool // the guard's true branch ends in a return/panic (i.e. the guard rejects or answers)
+	RejectCode string // "codespace/code" of the registered error the guard rejects with ("" if not a module error)
 }
 
 type c16WireSpec struct {
@@ -273,6 +276,9 @@ func c16ExtractGuard(repo string, sp c16GuardSpec) (c16Guard, error) {
 			if flag == "" {
 				return false
 			}
+			if sp.callee != "" && !strings.Contains(exprString(call.Fun), sp.callee) {
+				return false
+			}
 			used := false
 			for _, arg := range call.Args {
 				if c16Mentions(arg, sp.v) {
@@ -305,7 +311,10 @@ func c16ExtractGuard(repo string, sp c16GuardSpec) (c16Guard, error) {
 		return false
 	})
 	if hit == nil {
-		return g, fmt.Errorf("%s %s: no %s-guard on %q found (comparison dropped?)", sp.file, sp.fn, sp.scheme, sp.v)
+		// the comparison was dropped: keep the table well-formed so that the model (which then lets
+		// every signer through) still builds and the failing input can be exhibited
+		g.Op = "missing"
+		return g, nil
 	}
 	g.Context = strings.Join(hit.ctx, " > ")
 	if hit.assign != nil {
@@ -323,6 +332,16 @@ func c16ExtractGuard(repo string, sp c16GuardSpec) (c16Guard, error) {
 		}
 		g.OnTrue = c16Block(f, hit.ifs.Body)
 	}
+	if hit.ifs != nil && hit.ifs.Body != nil && len(hit.ifs.Body.List) > 0 {
+		switch last := hit.ifs.Body.List[len(hit.ifs.Body.List)-1].(type) {
+		case *ast.ReturnStmt:
+			g.Exits = true
+		case *ast.ExprStmt:
+			if c, ok := last.X.(*ast.CallExpr); ok && exprString(c.Fun) == "panic" {
+				g.Exits = true
+			}
+		}
+	}
 	if hit.ifs != nil && hit.ifs.Else != nil {
 		switch e := hit.ifs.Else.(type) {
 		case *ast.BlockStmt:
@@ -336,7 +355,51 @@ func c16ExtractGuard(repo string, sp c16GuardSpec) (c16Guard, error) {
 			g.Fallthrough = c16Stmt(f, r)
 		}
 	}
+	ident := c16ErrIdent.FindString(g.OnTrue)
+	if ident == "" && g.Exits {
+		ident = c16ErrIdent.FindString(g.Fallthrough) // search loops: the miss is the function's final return
+	}
+	if ident != "" {
+		g.RejectCode = c16ErrorCode(repo, sp.file, ident)
+	}
 	return g, nil
+}
+
+// c16ErrorCode looks `ident = errorsmod.Register(ModuleName, N, …)` up in x/<module>/types and renders
+// "codespace/N"; "" when the identifier is not registered by that module (e.g. an SDK error).
+func c16ErrorCode(repo, file, ident string) string {
+	parts := strings.Split(file, "/")
+	if len(parts) < 2 || parts[0] != "x" {
+		return ""
+	}
+	files, err := parseDir(repo, "x/"+parts[1]+"/types")
+	if err != nil {
+		return ""
+	}
+	space := ""
+	for _, tf := range files {
+		if e, err := tf.topValue("ModuleName"); err == nil {
+			if v, err := strLit(e); err == nil {
+				space = v
+			}
+		}
+	}
+	for _, tf := range files {
+		e, err := tf.topValue(ident)
+		if err != nil {
+			continue
+		}
+		call, ok := e.(*ast.CallExpr)
+		if !ok || !strings.HasSuffix(exprString(call.Fun), "Register") || len(call.Args) < 2 {
+			continue
+		}
+		lit, ok := call.Args[1].(*ast.BasicLit)
+		if !ok || space == "" {
+			continue
+		}
+		return space + "/" + lit.Value
+	}
+	return ""
 }
 
 func c16MethodOf(f *File, recvType, name string) *ast.FuncDecl {
@@ -441,31 +504,31 @@ func c16ExtractWire(repo string, sp c16WireSpec) (c16Wire, error) {
 func emitC16Guards(repo string) (string, any, error) {
 	iss := "x/issuance/keeper/issuance.go"
 	guards := []c16GuardSpec{
-		{"pricefeed.PostPrice", "x/pricefeed/keeper/msg_server.go", "PostPrice", "from", "lookup", 0},
-		{"pricefeed.GetOracle", "x/pricefeed/keeper/params.go", "GetOracle", "address", "if", 0},
-		{"issuance.IssueTokens", iss, "IssueTokens", "owner", "if", 0},
-		{"issuance.RedeemTokens", iss, "RedeemTokens", "owner", "if", 0},
-		{"issuance.BlockAddress", iss, "BlockAddress", "owner", "if", 0},
-		{"issuance.UnblockAddress", iss, "UnblockAddress", "owner", "if", 0},
-		{"issuance.SetPauseStatus", iss, "SetPauseStatus", "owner", "if", 0},
-		{"bep3.CreateAtomicSwap", "x/bep3/keeper/swap.go", "CreateAtomicSwap", "sender", "if", 0},
-		{"committee.SubmitProposal", "x/committee/keeper/proposal.go", "SubmitProposal", "proposer", "if", 0},
-		{"committee.AddVote", "x/committee/keeper/proposal.go", "AddVote", "voter", "if", 0},
-		{"committee.HasMember", "x/committee/types/committee.go", "HasMember", "addr", "if", 0},
-		{"community.UpdateParams", "x/community/keeper/msg_server.go", "UpdateParams", "msg.Authority", "if", 0},
-		{"cdp.AddPrincipal", "x/cdp/keeper/draw.go", "AddPrincipal", "owner", "lookup", 0},
-		{"cdp.RepayPrincipal", "x/cdp/keeper/draw.go", "RepayPrincipal", "owner", "lookup", 0},
-		{"cdp.WithdrawCollateral", "x/cdp/keeper/deposit.go", "WithdrawCollateral", "depositor", "lookup", 0},
-		{"cdp.WithdrawCollateral.cdp", "x/cdp/keeper/deposit.go", "WithdrawCollateral", "owner", "lookup", 0},
-		{"cdp.WithdrawCollateral.cap", "x/cdp/keeper/deposit.go", "WithdrawCollateral", "deposit", "if", 0},
-		{"hard.Withdraw", "x/hard/keeper/withdraw.go", "Withdraw", "depositor", "lookup", 0},
-		{"hard.Withdraw.cap", "x/hard/keeper/withdraw.go", "CalculateWithdrawAmount", "available", "if", 1},
-		{"swap.Withdraw", "x/swap/keeper/withdraw.go", "Withdraw", "owner", "lookup", 0},
-		{"swap.Withdraw.cap", "x/swap/keeper/withdraw.go", "Withdraw", "shareRecord", "if", 0},
-		{"earn.Withdraw", "x/earn/keeper/withdraw.go", "Withdraw", "from", "lookup", 0},
-		{"earn.Withdraw.cap", "x/earn/keeper/withdraw.go", "Withdraw", "accCurrentShares", "if", 0},
-		{"savings.Withdraw", "x/savings/keeper/withdraw.go", "Withdraw", "depositor", "lookup", 0},
-		{"savings.Withdraw.cap", "x/savings/keeper/withdraw.go", "CalculateWithdrawAmount", "available", "if", 1},
+		{"pricefeed.PostPrice", "x/pricefeed/keeper/msg_server.go", "PostPrice", "from", "lookup", 0, "GetOracle"},
+		{"pricefeed.GetOracle", "x/pricefeed/keeper/params.go", "GetOracle", "address", "if", 0, ""},
+		{"issuance.IssueTokens", iss, "IssueTokens", "owner", "if", 0, ""},
+		{"issuance.RedeemTokens", iss, "RedeemTokens", "owner", "if", 0, ""},
+		{"issuance.BlockAddress", iss, "BlockAddress", "owner", "if", 0, ""},
+		{"issuance.UnblockAddress", iss, "UnblockAddress", "owner", "if", 0, ""},
+		{"issuance.SetPauseStatus", iss, "SetPauseStatus", "owner", "if", 0, ""},
+		{"bep3.CreateAtomicSwap", "x/bep3/keeper/swap.go", "CreateAtomicSwap", "sender", "if", 0, ""},
+		{"committee.SubmitProposal", "x/committee/keeper/proposal.go", "SubmitProposal", "proposer", "if", 0, ""},
+		{"committee.AddVote", "x/committee/keeper/proposal.go", "AddVote", "voter", "if", 0, ""},
+		{"committee.HasMember", "x/committee/types/committee.go", "HasMember", "addr", "if", 0, ""},
+		{"community.UpdateParams", "x/community/keeper/msg_server.go", "UpdateParams", "msg.Authority", "if", 0, ""},
+		{"cdp.AddPrincipal", "x/cdp/keeper/draw.go", "AddPrincipal", "owner", "lookup", 0, "GetCdpByOwnerAndCollateralType"},
+		{"cdp.RepayPrincipal", "x/cdp/keeper/draw.go", "RepayPrincipal", "owner", "lookup", 0, "GetCdpByOwnerAndCollateralType"},
+		{"cdp.WithdrawCollateral", "x/cdp/keeper/deposit.go", "WithdrawCollateral", "depositor", "lookup", 0, "GetDeposit"},
+		{"cdp.WithdrawCollateral.cdp", "x/cdp/keeper/deposit.go", "WithdrawCollateral", "owner", "lookup", 0, "GetCdpByOwnerAndCollateralType"},
+		{"cdp.WithdrawCollateral.cap", "x/cdp/keeper/deposit.go", "WithdrawCollateral", "deposit", "if", 0, ""},
+		{"hard.Withdraw", "x/hard/keeper/withdraw.go", "Withdraw", "depositor", "lookup", 0, "GetDeposit"},
+		{"hard.Withdraw.cap", "x/hard/keeper/withdraw.go", "CalculateWithdrawAmount", "available", "if", 1, ""},
+		{"swap.Withdraw", "x/swap/keeper/withdraw.go", "Withdraw", "owner", "lookup", 0, "GetDepositorShares"},
+		{"swap.Withdraw.cap", "x/swap/keeper/withdraw.go", "Withdraw", "shareRecord", "if", 0, ""},
+		{"earn.Withdraw", "x/earn/keeper/withdraw.go", "Withdraw", "from", "lookup", 0, "GetVaultShareRecord"},
+		{"earn.Withdraw.cap", "x/earn/keeper/withdraw.go", "Withdraw", "accCurrentShares", "if", 0, ""},
+		{"savings.Withdraw", "x/savings/keeper/withdraw.go", "Withdraw", "depositor", "lookup", 0, "GetDeposit"},
+		{"savings.Withdraw.cap", "x/savings/keeper/withdraw.go", "CalculateWithdrawAmount", "available", "if", 1, ""},
 	}
 	wires := []c16WireSpec{
 		{"pricefeed.PostPrice", "MsgPostPrice", "x/pricefeed/types/msgs.go", "x/pricefeed/keeper/msg_server.go", "PostPrice"},
@@ -490,7 +553,7 @@ func emitC16Guards(repo string) (string, any, error) {
 	sb.WriteString("namespace KV.Gen.C16\n\n")
 	sb.WriteString("/-- shape of the statement that gates a privileged handler on its signer-derived variable -/\n")
 	sb.WriteString("structure Guard where\n  handler : String\n  file : String\n  fn : String\n  signer : String\n  kind : String\n" +
-		"  lhs : String\n  op : String\n  rhs : String\n  onTrue : String\n  onFalse : String\n  context : String\n  fallthru : String\nderiving DecidableEq, Repr, Inhabited\n\n")
+		"  lhs : String\n  op : String\n  rhs : String\n  exits : Bool\n  rejectCode : String\n  onTrue : String\n  onFalse : String\n  context : String\n  fallthru : String\nderiving DecidableEq, Repr, Inhabited\n\n")
 	sb.WriteString("/-- how the signer of a message reaches the keeper: GetSigners field, local variable, keeper call -/\n")
 	sb.WriteString("structure Wire where\n  handler : String\n  msgType : String\n  signerField : String\n  srvFile : String\n  srvFn : String\n" +
 		"  signerVar : String\n  keeperCall : String\nderiving DecidableEq, Repr, Inhabited\n\n")
@@ -506,9 +569,9 @@ func emitC16Guards(repo string) (string, any, error) {
 		if i == len(guards)-1 {
 			sep = ""
 		}
-		fmt.Fprintf(&sb, "  { handler := %s, file := %s, fn := %s, signer := %s, kind := %s,\n    lhs := %s, op := %s, rhs := %s,\n    onTrue := %s,\n    onFalse := %s,\n    context := %s,\n    fallthru := %s }%s\n",
+		fmt.Fprintf(&sb, "  { handler := %s, file := %s, fn := %s, signer := %s, kind := %s,\n    lhs := %s, op := %s, rhs := %s, exits := %s, rejectCode := %s,\n    onTrue := %s,\n    onFalse := %s,\n    context := %s,\n    fallthru := %s }%s\n",
 			leanStr(g.Handler), leanStr(g.File), leanStr(g.Fn), leanStr(g.Signer), leanStr(g.Kind),
-			leanStr(g.Lhs), leanStr(g.Op), leanStr(g.Rhs), leanStr(g.OnTrue), leanStr(g.OnFalse), leanStr(g.Context), leanStr(g.Fallthrough), sep)
+			leanStr(g.Lhs), leanStr(g.Op), leanStr(g.Rhs), leanBool(g.Exits), leanStr(g.RejectCode), leanStr(g.OnTrue), leanStr(g.OnFalse), leanStr(g.Context), leanStr(g.Fallthrough), sep)
 	}
 	sb.WriteString("]\n\n")
 	var ws []c16Wire
